@@ -1786,8 +1786,10 @@ mod builtins {
             };
             let memorized_value = if case_sensitive {
                 value_to_compare.clone()
-            } else if let Some(s) = value_to_compare.as_str() {
-                Value::from(s.to_lowercase())
+            } else if value_to_compare.kind() == ValueKind::String {
+                // bytes have a string view too, but they are not equal to
+                // the string: only strings are folded
+                Value::from(value_to_compare.as_str().unwrap_or_default().to_lowercase())
             } else {
                 value_to_compare.clone()
             };
